@@ -58,6 +58,22 @@ var serverConfs = []*SConf{
 	{Name: "tls-only-gzip-only", Comp: []string{"gzip"}, Enc: []string{"tls"}, Schemes: []string{"plain"}, Kind: "memtls", TLSOk: true},
 }
 
+// a transport pair that can switch both compression and encryption (exists only in the verification build)
+var multiConf = &SConf{Name: "multi-gzip-tls", Comp: []string{"none", "gzip"}, Enc: []string{"none", "tls"}, Schemes: []string{"plain", "guest"}, Kind: "multi", TLSOk: true}
+
+var multiAlphabet = []CIn{
+	ses("", "new", "", "", "", nil),
+	ses("SID", "negotiating", "tls", "gzip", "", nil),
+	ses("SID", "negotiating", "tls", "none", "", nil),
+	ses("SID", "negotiating", "none", "gzip", "", nil),
+	ses("SID", "negotiating", "none", "none", "", nil),
+	ses("SID", "negotiating", "rot13", "gzip", "", nil),
+	ses("SID", "authenticating", "", "", "plain", ip(1)),
+	ses("SID", "authenticating", "", "", "guest", ip(0)),
+	{Kind: "data"},
+	{Kind: "eof"},
+}
+
 var serverOracles = []*SOracle{
 	{Name: "plain1-ok", Auth: []AuthRow{
 		{1, "plain", ip(1), 0, "role"}, {1, "plain", ip(2), 0, "round:7"}, {1, "plain", ip(1), 1, "role"},
